@@ -1,3 +1,457 @@
 package main
 
-func scancheckMain(args []string) {}
+// C13: the token stream is a faithful, positioned partition of the source.
+// Bulk oracle (in the worker for throughput): model-free partition/position laws computed from
+// the source text, an independent small lexer for the token kinds, and the indentation rule.
+
+import (
+	"flag"
+	"fmt"
+	"os"
+	"path/filepath"
+	"sort"
+	"strings"
+	"unicode/utf8"
+
+	"github.com/DDP-Projekt/Kompilierer/src/ddperror"
+	"github.com/DDP-Projekt/Kompilierer/src/scanner"
+	"github.com/DDP-Projekt/Kompilierer/src/token"
+)
+
+type mtok struct {
+	kind       token.TokenType
+	start, end int // rune indices, end exclusive
+}
+
+func mAlpha(r rune) bool {
+	return (r >= 'a' && r <= 'z') || (r >= 'A' && r <= 'Z') || r == '_' || strings.ContainsRune("äöüÄÖÜß", r)
+}
+func mDigit(r rune) bool { return r >= '0' && r <= '9' }
+func mBlank(r rune) bool { return r == ' ' || r == '\t' || r == '\n' || r == '\r' }
+
+func modelKind(lit string) token.TokenType {
+	if k, ok := modelKeywords[lit]; ok {
+		return k
+	}
+	if k, ok := modelKeywords[strings.ToLower(lit)]; ok {
+		return k
+	}
+	return token.IDENTIFIER
+}
+
+// independent lexer written from the lexical rules
+func modelLex(src []rune, alias bool) []mtok {
+	var out []mtok
+	n := len(src)
+	at := func(i int) rune {
+		if i < n {
+			return src[i]
+		}
+		return -1
+	}
+	i := 0
+	for {
+		for i < n && mBlank(src[i]) {
+			i++
+		}
+		if i >= n {
+			out = append(out, mtok{token.EOF, n, n})
+			return out
+		}
+		c := src[i]
+		j := i + 1
+		var k token.TokenType
+		switch {
+		case mAlpha(c):
+			for j < n && (mAlpha(src[j]) || mDigit(src[j])) {
+				j++
+			}
+			k = modelKind(string(src[i:j]))
+		case mDigit(c):
+			for j < n && mDigit(src[j]) {
+				j++
+			}
+			k = token.INT
+			if at(j) == ',' && mDigit(at(j+1)) {
+				k = token.FLOAT
+				j++
+				for j < n && mDigit(src[j]) {
+					j++
+				}
+			}
+		case c == '-':
+			k = token.NEGATE
+		case c == '.':
+			k = token.DOT
+			if at(i+1) == '.' && at(i+2) == '.' {
+				k, j = token.ELIPSIS, i+3
+			}
+		case c == ',':
+			k = token.COMMA
+		case c == ':':
+			k = token.COLON
+		case c == '(':
+			k = token.LPAREN
+		case c == ')':
+			k = token.RPAREN
+		case c == '"' || c == '\'':
+			k = token.STRING
+			if c == '\'' {
+				k = token.CHAR
+			}
+			closed := false
+			for j < n {
+				if src[j] == c {
+					j++
+					closed = true
+					break
+				}
+				if src[j] == '\\' {
+					e := at(j + 1)
+					if e == 'a' || e == 'b' || e == 'n' || e == 'r' || e == 't' || e == '\\' || e == c {
+						j++
+					}
+				}
+				j++
+			}
+			if j > n {
+				j = n
+			}
+			if !closed {
+				k, j = token.ILLEGAL, n
+			}
+		case c == '[':
+			k = token.COMMENT
+			depth := 1
+			for j < n && depth > 0 {
+				if src[j] == '[' {
+					depth++
+				} else if src[j] == ']' {
+					depth--
+				}
+				j++
+			}
+		case c == '<' && alias:
+			k = token.ALIAS_PARAMETER
+			for j < n && src[j] != '>' && src[j] != '\n' {
+				j++
+			}
+			if j < n && src[j] == '>' {
+				j++
+			}
+		default:
+			k = token.SYMBOL
+		}
+		out = append(out, mtok{k, i, j})
+		i = j
+	}
+}
+
+type scanStats struct {
+	Strings     int            `json:"strings"`
+	Tokens      int            `json:"tokens"`
+	Kinds       map[string]int `json:"kinds"`
+	Bad         int            `json:"bad"`
+	InvalidUTF8 int            `json:"invalid_utf8_inputs"`
+	Multiline   int            `json:"multiline_tokens"`
+	IndentLines int            `json:"indent_judged"`
+	DiagCount   int            `json:"scanner_diagnostics"`
+}
+
+type scanBad struct {
+	Input string `json:"input"`
+	Hex   string `json:"hex"`
+	Mode  string `json:"mode"`
+	Law   string `json:"law"`
+	Tok   int    `json:"tok"`
+	Got   string `json:"got"`
+	Want  string `json:"want"`
+}
+
+var scanBadCount = 0
+
+func checkScan(src string, alias bool, st *scanStats) {
+	mode := "normal"
+	if alias {
+		mode = "alias"
+	}
+	bad := func(law string, idx int, got, want string) {
+		st.Bad++
+		scanBadCount++
+		if scanBadCount <= 200 {
+			emit("BAD", scanBad{Input: src, Hex: fmt.Sprintf("%x", src), Mode: mode, Law: law, Tok: idx, Got: got, Want: want})
+		}
+	}
+	st.Strings++
+	ndiag := 0
+	handler := func(ddperror.Error) { ndiag++ }
+	var toks []token.Token
+	var err error
+	if alias {
+		// ScanAlias takes the literal with its quotes and evaluates no escapes of its own
+		lit := token.Token{Type: token.STRING, Literal: "\"" + src + "\"", Range: token.Range{Start: token.Position{Line: 1, Column: 1}, End: token.Position{Line: 1, Column: 1}}}
+		toks, err = scanner.ScanAlias(lit, handler)
+	} else {
+		toks, err = scanner.Scan(scanner.Options{FileName: "x.ddp", Source: []byte(src), ScannerMode: scanner.ModeStrictCapitalization, ErrorHandler: handler})
+	}
+	st.DiagCount += ndiag
+	valid := utf8.ValidString(src)
+	if !valid {
+		st.InvalidUTF8++
+		if err == nil {
+			bad("invalid UTF-8 accepted", -1, "nil error", "error")
+		}
+		return
+	}
+	if err != nil {
+		bad("valid UTF-8 refused", -1, err.Error(), "tokens")
+		return
+	}
+	runes := []rune(src)
+	// rune index -> (line, col), independent of the scanner
+	type pos struct{ l, c uint }
+	posOf := make([]pos, len(runes)+1)
+	l, c := uint(1), uint(1)
+	for i, r := range runes {
+		posOf[i] = pos{l, c}
+		if r == '\n' {
+			l++
+			c = 1
+		} else {
+			c++
+		}
+	}
+	posOf[len(runes)] = pos{l, c}
+	idxOf := map[pos]int{}
+	for i := len(posOf) - 1; i >= 0; i-- {
+		idxOf[posOf[i]] = i
+	}
+	lookup := func(p token.Position) (int, bool) {
+		i, ok := idxOf[pos{p.Line, p.Column}]
+		return i, ok
+	}
+	model := modelLex(runes, alias)
+	// exactly one EOF and it is last
+	neof := 0
+	for _, t := range toks {
+		if t.Type == token.EOF {
+			neof++
+		}
+	}
+	if neof != 1 || len(toks) == 0 || toks[len(toks)-1].Type != token.EOF {
+		bad("exactly one EOF, last", -1, fmt.Sprint(neof), "1")
+		return
+	}
+	prevEnd := 0
+	afterIllegal := false
+	lineStartsInLiteral := map[uint]bool{} // lines that begin inside a multi-line token
+	for ti, t := range toks {
+		st.Tokens++
+		s, ok1 := lookup(t.Range.Start)
+		e, ok2 := lookup(t.Range.End)
+		if !ok1 || !ok2 {
+			bad("range is a 1-based code-point position inside the text", ti, t.Range.String(), "position in text")
+			return
+		}
+		if e < s {
+			bad("start <= end", ti, t.Range.String(), "")
+			return
+		}
+		if s < prevEnd {
+			bad("tokens in source order without overlap", ti, t.Range.String(), fmt.Sprintf("start >= rune %d", prevEnd))
+			return
+		}
+		for g := prevEnd; g < s; g++ {
+			if !mBlank(runes[g]) {
+				bad("only blanks between tokens", ti, fmt.Sprintf("%q at rune %d uncovered", runes[g], g), "blank")
+				return
+			}
+		}
+		if t.Type == token.EOF {
+			if s != len(runes) || e != len(runes) {
+				bad("EOF positioned at end of text", ti, t.Range.String(), fmt.Sprint(posOf[len(runes)]))
+			}
+		} else if t.Type != token.ILLEGAL {
+			if string(runes[s:e]) != t.Literal {
+				bad("literal is the source substring at its range", ti, t.Literal, string(runes[s:e]))
+				return
+			}
+			if e == s {
+				bad("non-EOF token is non-empty", ti, t.Range.String(), "")
+				return
+			}
+		}
+		for g := s; g < e && g < len(runes); g++ {
+			if runes[g] == '\n' {
+				lineStartsInLiteral[posOf[g].l+1] = true
+				st.Multiline++
+			}
+		}
+		// kind against the independent lexer
+		if !afterIllegal {
+			if ti >= len(model) {
+				bad("token count", ti, fmt.Sprint(len(toks)), fmt.Sprint(len(model)))
+				return
+			}
+			m := model[ti]
+			if m.kind != t.Type || m.start != s || (m.end != e && t.Type != token.ILLEGAL) {
+				bad("kind and extent follow the lexical rules", ti, fmt.Sprintf("%s [%d,%d)", t.Type, s, e), fmt.Sprintf("%s [%d,%d)", m.kind, m.start, m.end))
+				return
+			}
+			st.Kinds[t.Type.String()]++
+		}
+		if t.Type == token.ILLEGAL {
+			afterIllegal = true
+		}
+		// indentation: tabs + complete groups of four consecutive spaces before the first non-blank of the line
+		spansLines := t.Range.End.Line != t.Range.Start.Line // a token spanning lines: which line's indentation it carries is not stated
+		if !alias && !lineStartsInLiteral[t.Range.Start.Line] && t.Type != token.EOF && !spansLines {
+			ls := s
+			for ls > 0 && runes[ls-1] != '\n' {
+				ls--
+			}
+			want, run, judge := uint(0), 0, true
+			for g := ls; g < len(runes) && mBlank(runes[g]) && runes[g] != '\n'; g++ {
+				switch runes[g] {
+				case '\t':
+					want++
+					run = 0
+				case ' ':
+					run++
+					if run == 4 {
+						want++
+						run = 0
+					}
+				case '\r':
+					judge = false // a stray carriage return inside the indentation: not covered by the stated rule
+				}
+			}
+			if judge {
+				st.IndentLines++
+				if t.Indent != want {
+					bad("indent = tabs + groups of four spaces at line start", ti, fmt.Sprint(t.Indent), fmt.Sprint(want))
+					return
+				}
+			}
+		}
+		prevEnd = e
+	}
+	if !afterIllegal && len(toks) != len(model) {
+		bad("token count", -1, fmt.Sprint(len(toks)), fmt.Sprint(len(model)))
+	}
+}
+
+func scancheckMain(args []string) {
+	fs := flag.NewFlagSet("scancheck", flag.ExitOnError)
+	alphabet := fs.String("alphabet", "", "runes to enumerate over (exhaustive mode)")
+	maxLen := fs.Int("maxlen", 0, "max string length (exhaustive mode)")
+	part := fs.Int("part", 0, "this worker's partition (by first symbol)")
+	parts := fs.Int("parts", 1, "number of partitions")
+	alias := fs.Bool("alias", false, "alias mode")
+	random := fs.Int("random", 0, "number of random lexeme strings")
+	seed := fs.Uint64("seed", 0, "seed")
+	files := fs.String("files", "", "directory of .ddp files to scan")
+	invalid := fs.Bool("invalid", false, "ill-formed UTF-8 sweep")
+	fs.Parse(args)
+	st := &scanStats{Kinds: map[string]int{}}
+	begin("scancheck")
+	if *maxLen > 0 {
+		al := []rune(*alphabet)
+		buf := make([]rune, 0, *maxLen)
+		var rec func()
+		rec = func() {
+			checkScan(string(buf), *alias, st)
+			if len(buf) == *maxLen {
+				return
+			}
+			for i, r := range al {
+				if len(buf) == 0 && i%*parts != *part {
+					continue
+				}
+				buf = append(buf, r)
+				rec()
+				buf = buf[:len(buf)-1]
+			}
+		}
+		if *part == 0 {
+			rec()
+		} else {
+			// the empty string belongs to partition 0
+			for i, r := range al {
+				if i%*parts != *part {
+					continue
+				}
+				buf = append(buf, r)
+				rec()
+				buf = buf[:0]
+			}
+		}
+	}
+	if *random > 0 {
+		lex := scanLexemes()
+		for i := 0; i < *random; i++ {
+			r := newRng(*seed, uint64(i))
+			var b strings.Builder
+			n := 1 + r.intn(40)
+			for k := 0; k < n && b.Len() < 200; k++ {
+				b.WriteString(lex[r.intn(len(lex))])
+			}
+			checkScan(b.String(), *alias, st)
+		}
+	}
+	if *files != "" {
+		var fl []string
+		filepath.WalkDir(*files, func(p string, d os.DirEntry, err error) error {
+			if err == nil && !d.IsDir() && strings.HasSuffix(p, ".ddp") {
+				fl = append(fl, p)
+			}
+			return nil
+		})
+		sort.Strings(fl)
+		for _, f := range fl {
+			b, err := os.ReadFile(f)
+			if err == nil {
+				checkScan(string(b), false, st)
+			}
+		}
+	}
+	if *invalid {
+		// every ill-formed class embedded at three positions of a valid text
+		var seqs []string
+		for b := 0x80; b <= 0xff; b++ {
+			seqs = append(seqs, string([]byte{byte(b)})) // lone continuation / lead / invalid byte
+		}
+		for _, lead := range []byte{0xc2, 0xdf, 0xe0, 0xe1, 0xed, 0xef, 0xf0, 0xf1, 0xf4} {
+			for _, second := range []byte{0x00, 0x41, 0x7f, 0x80, 0x9f, 0xa0, 0xbf, 0xc0, 0xff} {
+				seqs = append(seqs, string([]byte{lead, second}))
+				for _, third := range []byte{0x41, 0x80, 0xbf, 0xc0} {
+					seqs = append(seqs, string([]byte{lead, second, third}))
+				}
+			}
+		}
+		seqs = append(seqs, "\xc0\x80", "\xc1\xbf", "\xe0\x80\x80", "\xed\xa0\x80", "\xed\xbf\xbf", "\xf0\x80\x80\x80", "\xf4\x90\x80\x80", "\xf5\x80\x80\x80", "\xf8\x88\x80\x80\x80")
+		hosts := []string{"", "Die Zahl x ist 1.", "Der Text t ist \"ä\"."}
+		for _, s := range seqs {
+			for _, h := range hosts {
+				for _, at := range []int{0, len(h) / 2, len(h)} {
+					checkScan(h[:at]+s+h[at:], false, st)
+				}
+			}
+		}
+	}
+	emit("AGG", st)
+}
+
+func scanLexemes() []string {
+	l := []string{" ", " ", "\t", "\n", "\r\n", "    ", "  ", ".", ",", ":", "(", ")", "-", "...", "..", "?", "!", "<", ">", "*", "/",
+		"0", "1", "42", "007", "1,5", "0,0", "3,", ",5", "1,2,3", "9223372036854775807", "12a", "a12",
+		"\"\"", "\"text\"", "\"ä€😀\"", "\"a\\nb\"", "\"a\\\"b\"", "\"\\\\\"", "\"\\q\"", "\"zwei\nzeilen\"", "\"offen",
+		"'a'", "'ä'", "'😀'", "'\\n'", "'\\''", "'\\\\'", "'ab'", "''", "'offen",
+		"[k]", "[a [b] c]", "[mehr\nzeilig]", "[offen", "]", "[]",
+		"x", "abc", "Äpfel", "über", "straße", "_x", "x_1", "ß", "<x>", "<!nicht>", "<a", "<>"}
+	for k := range modelKeywords {
+		l = append(l, k, strings.ToUpper(k[:1])+k[1:], strings.ToUpper(k))
+	}
+	sort.Strings(l)
+	return l
+}
